@@ -293,6 +293,8 @@ def r4_r5(tree, rep):
 
 
 def run(tree, rep, tier):
+    from .. import sharedstate
+    sharedstate.check(tree, rep, "C13.R0")
     prog = Program(tree)
     r1(prog, rep)
     r2(tree, rep)
